@@ -140,6 +140,16 @@ class Circuit:
                     "be converted to a unitary matrix."
                 )
 
+        if self.free_symbols:
+            # Mixing numpy and sympy factors relies on sympifying numpy scalars,
+            # so convert numeric factors through native Python numbers first.
+            lifted_matrices = [
+                sympy.Matrix(matrix.tolist())
+                if isinstance(matrix, np.ndarray)
+                else matrix
+                for matrix in lifted_matrices
+            ]
+
         return reduce(operator.matmul, lifted_matrices)
 
     def bind(self, symbols_map: Dict[sympy.Symbol, Any]):
